@@ -214,7 +214,7 @@ func (e *Enc) Preamble() string {
 	b.WriteString("(declare-datatypes ((Iface 0)) (((inil) (iref (itag Int) (pref Ref)) (iint (jtag Int) (pint Int)) (istr (ktag Int) (pstr Str)))))\n")
 	b.WriteString("(define-fun tagof ((i Iface)) Int (ite ((_ is inil) i) 0 (ite ((_ is iref) i) (itag i) (ite ((_ is iint) i) (jtag i) (ktag i)))))\n")
 	b.WriteString("(assert (= (slen str_empty) 0))\n")
-	b.WriteString("(assert (forall ((s Str)) (! (>= (slen s) 0) :pattern ((slen s)))))\n")
+	b.WriteString("(assert (forall ((s Str)) (! (and (>= (slen s) 0) (<= (slen s) 281474976710656)) :pattern ((slen s)))))\n") // finite memory: 2^48
 	b.WriteString("(assert (forall ((s Str)) (! (=> (= (slen s) 0) (= s str_empty)) :pattern ((slen s)))))\n")
 	b.WriteString("(assert (forall ((s Str) (i Int)) (! (and (<= 0 (sat s i)) (<= (sat s i) 255)) :pattern ((sat s i)))))\n")
 	b.WriteString("(declare-fun subkind (Ref) Int)\n(declare-fun rootof (Ref) Ref)\n")
